@@ -24,7 +24,7 @@ import random
 import subprocess
 import multiprocessing as mp
 
-sys.path.insert(0, '/repo/src')
+sys.path.insert(0, __import__('os').path.join(__import__('os').environ.get('VERIF_REPO', '/repo'), 'src'))
 from bumpver import v2version, version, v2patterns  # noqa: E402
 
 DRIVER = '/verif/lean/.lake/build/bin/driver'
